@@ -926,7 +926,7 @@ fn main() {
                 run_case(&args, &report, cs);
             } else {
                 let shards = args.by_tier(32usize, 64);
-                let per = args.by_tier(1200usize, 9000);
+                let per = args.by_tier(600usize, 9000);
                 let a = args.clone();
                 let r = report.clone();
                 run_shards(&report, &args, shards, move |_i, s| {
@@ -936,22 +936,22 @@ fn main() {
                 });
                 if !args.extra.contains_key("selftest") {
                     let q = !args.is_thorough();
-                    report.require("cases", if q { 30_000 } else { 400_000 });
-                    report.require("exec.ok", if q { 300_000 } else { 4_000_000 });
-                    report.require("exec.failed", 10_000);
-                    report.require("rounds.failed", 30_000);
-                    report.require("cases.progress_after_failed_round", 10_000);
-                    report.require("cache.block_hits", 10_000);
-                    report.require("cache.header_hits", 10_000);
-                    report.require("consensus.reject", 5_000);
+                    report.require("cases", if q { 15_000 } else { 400_000 });
+                    report.require("exec.ok", if q { 150_000 } else { 4_000_000 });
+                    report.require("exec.failed", 5_000);
+                    report.require("rounds.failed", 15_000);
+                    report.require("cases.progress_after_failed_round", 5_000);
+                    report.require("cache.block_hits", 5_000);
+                    report.require("cache.header_hits", 5_000);
+                    report.require("consensus.reject", 2_500);
                     for k in ["error", "none", "empty", "short", "wrong_height", "forged", "extra"] {
-                        report.require(&format!("p2p.headers.{k}"), 2000);
+                        report.require(&format!("p2p.headers.{k}"), 1000);
                     }
                     for k in ["error", "none", "short", "garbage_first", "garbage_any", "extra"] {
-                        report.require(&format!("p2p.txs.{k}"), 2000);
+                        report.require(&format!("p2p.txs.{k}"), 1000);
                     }
                     for k in ["BadBlockHeader", "MissingBlockHeaders", "MissingTransactions", "InvalidTransactions", "SuccessfulBlockImport"] {
-                        report.require(&format!("report.{k}"), 5000);
+                        report.require(&format!("report.{k}"), 2500);
                     }
                 }
             }
